@@ -1,6 +1,7 @@
 package vc
 
 import (
+	"os"
 	"fmt"
 	"go/ast"
 	"go/token"
@@ -67,6 +68,8 @@ func (x *Exec) call(fr *frame, st *State, cc *ssa.CallCommon, ins ssa.Instructio
 }
 
 // callFunc dispatches a call to a known function.
+var traceCalls = os.Getenv("B6VC_TRACE") != ""
+
 func (x *Exec) callFunc(fr *frame, st *State, callee *ssa.Function, args []Value, bindings []Value, resT types.Type, pos token.Pos) Value {
 	q := QualName(callee)
 	if callee.Origin() != nil {
@@ -95,6 +98,9 @@ func (x *Exec) callFunc(fr *frame, st *State, callee *ssa.Function, args []Value
 		return x.applyContract(st, ct, callee, args, resT, pos)
 	}
 	if callee.Blocks != nil && len(x.stack) < x.Opt.MaxInline && !x.onStack(callee) {
+		if traceCalls {
+			fmt.Fprintf(os.Stderr, "TRACE %*s%s\n", len(x.stack), "", q)
+		}
 		x.Notes.Inlined[q] = true
 		return x.inline(st, callee, args, bindings)
 	}
@@ -123,6 +129,9 @@ func (x *Exec) callFunc(fr *frame, st *State, callee *ssa.Function, args []Value
 		panic(unsupported("recursive call of " + q + " without a contract"))
 	}
 	x.Notes.Uncontracted[q] = true
+	if traceCalls {
+		fmt.Fprintf(os.Stderr, "TRACE %*sHAVOC %s (blocks=%v depth=%d)\n", len(x.stack), "", q, callee.Blocks != nil, len(x.stack))
+	}
 	return x.havocCall(st, q, resT)
 }
 
@@ -472,6 +481,17 @@ func (x *Exec) intrinsic(fr *frame, st *State, q string, callee *ssa.Function, a
 		return x.freshResult(st, "sprintf", resT), true
 	case "log.Printf", "log.Println", "log.Print":
 		return Value{}, true
+	case "math/bits.Len":
+		// number of bits needed to represent x (uint is 64 bits wide here); bit-vector mode only
+		if len(args) == 1 && len(args[0].L) == 1 && args[0].L[0].Sort.Kind == SBV && args[0].L[0].Sort.W == 64 {
+			c := x.C
+			r := c.BVI(0, 64)
+			for k := 0; k < 64; k++ {
+				r = c.Ite(c.BVCmp("bvuge", args[0].L[0], c.BVU(1<<uint(k), 64)), c.BVI(int64(k+1), 64), r)
+			}
+			return Value{T: resT, L: []*Term{r}}, true
+		}
+		return Value{}, false
 	case "math/bits.LeadingZeros64", "math/bits.TrailingZeros64", "math/bits.Len64":
 		return Value{}, false // inline their bodies if loaded
 	}
